@@ -1,6 +1,7 @@
 import PW.Props.C01
 import PW.Proofs.SpecLemmas
 import PW.Proofs.Channels
+import PW.Props.Strings
 /-!
 # C06 — Kraus channels are applied as Σ K ρ K† on the named subsystems
 
@@ -35,6 +36,13 @@ theorem kraus_append (dims : List Nat) (T : List Nat) (Ks Ls : List (Tensor R)) 
     krausOn dims T (Ks ++ Ls) ρ rc = krausOn dims T Ks ρ rc + krausOn dims T Ls ρ rc := by
   simp [krausOn, List.map_append, List.sum_append]
 
+/-- the einsum literals of `Envelope.apply_kraus` are generated plans (one member; two members with
+interleaved axes) -/
+theorem envelope_kraus_strings_are_generated_plans :
+    (PW.Props.Strings.plansOf "photon_weave/state/envelope.py" "apply_kraus").map canon
+      = [canon (applyOperatorMatrix 1 [0]), canon (PW.Props.Strings.permuteAxes (applyOperatorMatrix 2 [0]) 1 [0, 2, 1, 3])] :=
+  PW.Props.Strings.envelope_kraus_strings
+
 /-- **Trace preservation** (Mathlib matrices over ℂ, addressed part `a`, everything else `b`, any
 joint state, entangled or not): `Σ Kᵢ†Kᵢ = 1 ⇒ Tr Σ (Kᵢ⊗1)ρ(Kᵢ⊗1)† = Tr ρ`. -/
 theorem channel_preserves_trace {a b ι : Type} [Fintype a] [Fintype b] [DecidableEq a] [DecidableEq b]
@@ -53,5 +61,6 @@ end PW.Props.C06
 #print axioms PW.Props.C06.kraus_sum_of_plans
 #print axioms PW.Props.C06.kraus_single
 #print axioms PW.Props.C06.kraus_append
+#print axioms PW.Props.C06.envelope_kraus_strings_are_generated_plans
 #print axioms PW.Props.C06.channel_preserves_trace
 #print axioms PW.Props.C06.channel_preserves_positivity
